@@ -102,6 +102,7 @@ def run(ctx):
     r, states = ctx.tlc_dump('MC_Dat', 'Dat', consts={'Extra': frozenset(extra)}, cfg_consts={'MaxRows': '2'},
                              invariants=['OutcomeAcceptable', 'OkMeansWhole'], deadlock=True, timeout=1500)
     n = 0
+    held, nheld_bad = None, 0
     for st in states:
         if st['outcome'] == '':
             continue
@@ -196,6 +197,16 @@ def run(ctx):
         except Exception as e:
             if exp != 'must_not_parse' or isinstance(e, DAT_parser.ExceptionDAT):
                 ctx.fail('can_parse_file raised %s: %s; text:\n%s' % (type(e).__name__, e, text), case, sig=dict(kind='can_parse_raise'))
+        # a result a caller holds on to stays what it was, whatever is parsed afterwards (other files with the same declarations)
+        if held is not None:
+            hfa, hsnap, htext = held
+            now_ = [(c_.ident, [c_.array[i_][0] for i_ in range(len(c_.array))]) for c_ in hfa.channels]
+            if now_ != hsnap and nheld_bad < 3:
+                nheld_bad += 1
+                ctx.fail('the result of an earlier parse_file changed when another text was parsed: %r, was %r; earlier text:\n%s' % (
+                    [(a_, len(b_)) for a_, b_ in now_], [(a_, len(b_)) for a_, b_ in hsnap], htext), dict(kind='held-result'), sig=dict(kind='held-result'))
+        if got == 'ok' and n % 3 == 0:
+            held = (fa, [(c_.ident, [c_.array[i_][0] for i_ in range(len(c_.array))]) for c_ in fa.channels], text)
     ctx.notes['texts_replayed'] = n
     ctx.exhaustive = not ctx.quick
     ctx.rule = ('one case per terminal state of Dat.tla (declaration order x header subset/order x rows x corruption); quick '
